@@ -635,7 +635,11 @@ def check(ctx):
         if ok and rv[0] == "adt" and rv[2] == "None":
             ok = variant_of(ex, p, g[0][4]) == "None"
         elif ok:
-            ok = S.mentions(rv, lambda x: x == g[0][4]) and ("name" in s)
+            # exactly Some(name of the entry found): nothing computed from it, no other entry
+            strip_ = lambda t_: re.sub(r"[&*()]", "", S.fstr(t_))
+            want_ = "Some" + strip_(("field", ("field", ("downcast", g[0][4], "Some"), "0"), "name"))
+            got_ = re.sub(r"(String::as_str|as_str|Deref>::deref|deref|AsRef<str>>::as_ref|as_ref)", "", strip_(rv))
+            ok = got_ == want_
         elif not g:
             # bounds test + indexing instead of get(): Some(name of scanner_modes[index]) exactly when index < len
             from .common import ordering_of
